@@ -307,8 +307,9 @@ def main() -> int:
         "engines": ENGINES,
         "checks": checks,
         "not_applicable": [{"property_id": p, "reason": NOT_APPLICABLE_REASON} for p in ALL if p not in CHECKS],
-        "notes": "All checks: ./check <ID> --tier quick|thorough; VERIF_SEED selects fill values only, the explored case set is "
-        "seed-independent. Known findings: known_findings.json. Seeded property-breaking changes: seeded/.",
+        "notes": "All checks: ./check <ID> --tier quick|thorough; VERIF_SEED selects fill/sample values only; the enumerated structure (shapes, plans, histories, "
+        "schedules, crash points) is the same for every seed, except that a few value-gated comparisons are skipped and counted (skipped_ambiguous) "
+        "when a drawn value sits on a rounding boundary of the specification itself. Known findings: known_findings.json. Seeded property-breaking changes: seeded/.",
     }
     (VERIF / "MANIFEST.json").write_text(json.dumps(man, indent=1) + "\n")
     try:
